@@ -98,3 +98,54 @@ Proof.
   repeat split; try (now left); right; eexists; (split; [reflexivity|split; [discriminate|reflexivity]]).
 Qed.
 
+(* ---------- add_rows<uint8_t>, jt_isim_unpacked_u8, jt_isim_packed_u8 ---------- *)
+From BB Require Import Proofs.CppMore.
+
+(* add_rows = np.sum(axis=0, dtype=uint64): byte rows, fewer than 2^56 of them (255 * 2^56 < 2^64):
+   both are the exact column sums [zcolsum] ... *)
+Theorem C13_add_rows : forall w X, Forall bytes X -> zlen X < 2 ^ 56 ->
+  cpp_add_rows w X = zcolsum w X /\ py_add_rows w X = zcolsum w X /\
+  Forall (fun k => 0 <= k <= 255 * zlen X) (zcolsum w X).
+Proof. exact K5_add_rows. Qed.
+(* ... and for any rows and any number of them the same uint64 values, wrap-around included *)
+Theorem C13_add_rows_wrap : forall w X, cpp_add_rows w X = py_add_rows w X.
+Proof. exact K5_add_rows_py. Qed.
+(* bit rows (unpacked fingerprints): the linear sum of C11 *)
+Theorem C13_add_rows_bits : forall nf rows, zlen rows < 2 ^ 64 ->
+  cpp_add_rows nf (map (map b2z) rows) = colsum nf rows.
+Proof. exact K5_add_rows_bits. Qed.
+
+(* iSIM of unpacked rows: same floating-point bits; the hypotheses of [C13_isim] on the sums hold
+   by construction, so only the shape (rows of width w) and the row count remain *)
+Theorem C13_isim_unpacked : forall w X, Forall (fun r => length r = w) X -> zlen X < 2 ^ 63 ->
+  cpp_isim_unpacked w X = py_isim_unpacked X.
+Proof. exact K5_isim_unpacked. Qed.
+(* on bit rows it is the iSIM of C11 on the column sums *)
+Theorem C13_isim_unpacked_bits : forall nf rows, zlen rows < 2 ^ 63 ->
+  cpp_isim_unpacked nf (map (map b2z) rows) = isim_f (colsum nf rows) (zlen rows).
+Proof. exact K5_isim_unpacked_bits. Qed.
+
+(* iSIM of packed rows, n_features = None or any count whose packed width is the row width *)
+Theorem C13_isim_packed : forall nf (w : nat) X, rows_ok w X -> nf_ok w nf -> zlen X < 2 ^ 63 ->
+  cpp_isim_packed nf X = Some (py_isim_packed nf X).
+Proof. exact K5_isim_packed. Qed.
+(* ... in fact any count >= 0 (this kernel has no shape check; truncation / zero padding as in
+   [C13_unpack]), with no hypothesis on the rows *)
+Theorem C13_isim_packed_any : forall nf X,
+  match nf with Some n => 0 <= n | None => True end -> zlen X < 2 ^ 63 ->
+  cpp_isim_packed nf X = Some (py_isim_packed nf X).
+Proof. exact K5_isim_packed_any. Qed.
+(* it throws exactly when the unpack kernel does; a negative count does *)
+Theorem C13_isim_packed_none : forall nf X,
+  cpp_isim_packed nf X = None <-> cpp_unpack_2d nf X = None.
+Proof. exact K5_isim_packed_none. Qed.
+Theorem C13_isim_packed_negative : forall n X, n < 0 -> X <> [] ->
+  cpp_isim_packed (Some n) X = None.
+Proof. exact K5_isim_packed_negative. Qed.
+(* the value is the iSIM of C11 on the unpacked fingerprints *)
+Theorem C13_isim_packed_colsum : forall nf (w : nat) X,
+  Forall (fun r => length r = w) X ->
+  match nf with Some n => 0 <= n | None => True end -> zlen X < 2 ^ 63 ->
+  cpp_isim_packed nf X
+  = Some (isim_f (colsum (unpacked_width w nf) (map (unpack nf) X)) (zlen X)).
+Proof. exact K5_isim_packed_colsum. Qed.
